@@ -550,6 +550,8 @@ class Verdict:
         self.counts = {}
         self.samples = []
         self.notes = []
+        self.kf_hits = {}     # known-finding key -> occurrences in this run
+        self.kf_last = {}     # known-finding key -> (what, replay files) of the latest occurrence
 
     def count(self, k, n=1):
         self.counts[k] = self.counts.get(k, 0) + n
@@ -565,6 +567,8 @@ class Verdict:
             if key not in self.known:
                 self.known[key] = what
             self.count("known_finding_hits")
+            self.kf_hits[key] = self.kf_hits.get(key, 0) + 1
+            self.kf_last[key] = (what, replay_files)
             return False
         if any(k == key for k, _ in self.violations):
             self.count("violation_repeats")
@@ -586,7 +590,39 @@ class Verdict:
         self.violations.append((key, rdir))
         return True
 
+    def known_hit(self, key, what="", replay_files=None):
+        """another occurrence of an already confirmed known finding (no new confirmation run)"""
+        self.count("known_finding_hits")
+        self.kf_hits[key] = self.kf_hits.get(key, 0) + 1
+        if replay_files is not None:
+            self.kf_last[key] = (what, replay_files)
+
+    def check_growth(self):
+        """A known finding lists, for deterministic tiers, how many cases it explained on the unchanged
+        tree (expected_hits).  More cases than that means something else now fails the same way."""
+        for key, n in sorted(self.kf_hits.items()):
+            e = self.findings.match(self.prop, key)
+            exp = (e or {}).get("expected_hits", {}).get("%s:%s" % (self.prop, self.tier))
+            if exp is not None and n > exp:
+                what, files = self.kf_last.get(key, ("", {}))
+                self.known.pop(key, None)
+                # bypass the known-finding match: this is a new failure under an old name
+                grown = "known-finding-grew:%s (%d cases on the unchanged tree, %d now)" % (key, exp, n)
+                h = hashlib.sha1(grown.encode()).hexdigest()[:10]
+                rdir = os.path.join(EVID, "replay", "%s-%s" % (self.prop, h))
+                shutil.rmtree(rdir, ignore_errors=True)
+                os.makedirs(rdir)
+                for fn, c in (files or {}).items():
+                    p = os.path.join(rdir, fn)
+                    os.makedirs(os.path.dirname(p), exist_ok=True)
+                    with open(p, "wb" if isinstance(c, bytes) else "w") as f:
+                        f.write(c)
+                with open(os.path.join(rdir, "violation.json"), "w") as f:
+                    json.dump({"property": self.prop, "key": grown, "what": what}, f, indent=1)
+                self.violations.append((grown, rdir))
+
     def finish(self, level, coverage, assumptions=None):
+        self.check_growth()
         for k, w in sorted(self.known.items()):
             print("KNOWN-FINDING: property=%s %s :: %s" % (self.prop, k, w.replace("\n", "\\n")[:300]))
         for k, rdir in self.violations:
@@ -596,6 +632,7 @@ class Verdict:
         cov.setdefault("samples", self.samples or ["(none)"])
         cov["outcome_counts"] = self.counts
         cov["known_findings_hit"] = sorted(self.known)
+        cov["known_finding_cases"] = dict(self.kf_hits)
         ev = {
             "property_id": self.prop, "tier": self.tier, "seed": seed(), "level": level,
             "coverage": cov, "assumptions": assumptions or [],
